@@ -557,7 +557,7 @@ func listNames(dir string) string {
 //	         file), no compaction (block bounds after compaction are C04's
 //	         business), exports straddling block bounds.
 func gen(r *h.Rand, tier string, emit func([]string)) {
-	n := 130
+	n := 90
 	if tier == "thorough" {
 		n = 3000
 	}
